@@ -54,6 +54,8 @@ PairsB == LET a == FromInt(k)  b == FromInt(j)
              /\ AlgoAddE2(N, <<>>, b) = PAdd(N, 2, <<>>, b) /\ AlgoAddE2(N, b, <<>>) = PAdd(N, 2, b, <<>>)
              /\ AlgoSubE2(N, <<>>, b) = PSub(N, 2, <<>>, b) /\ AlgoSubE2(N, b, <<>>) = PSub(N, 2, b, <<>>)
              /\ AlgoMulE2(N, <<>>, b) = PMul(N, 2, <<>>, b) /\ AlgoMulE2(N, b, <<>>) = PMul(N, 2, b, <<>>)
+             /\ AlgoDivE2(N, <<>>, b) = PDiv(N, 2, <<>>, b) /\ AlgoDivE2(N, b, <<>>) = PDiv(N, 2, b, <<>>)
+             /\ AlgoDivE2(N, a, b) = PDiv(N, 2, a, b) /\ AlgoDivE2(N, Neg(N, a), b) = PDiv(N, 2, Neg(N, a), b)
              /\ (AddSamePre(N, a, b) => AlgoAddSameE2(N, a, b) = PAdd(N, 2, a, b))
              /\ (AddSamePre(N, Neg(N, a), b) => AlgoAddSameE2(N, Neg(N, a), b) = PAdd(N, 2, Neg(N, a), b))
 
@@ -76,6 +78,7 @@ LatB == LET a == LatPat(k)  b == LatPat(j)
            /\ AlgoMulE2(N, Neg(N, a), b) = PMul(N, 2, Neg(N, a), b)
            /\ AlgoAddSameE2(N, a, b) = PAdd(N, 2, a, b)
            /\ AlgoSubE2(N, a, b) = PSub(N, 2, a, b)
+           /\ AlgoDivE2(N, a, b) = PDiv(N, 2, a, b) /\ AlgoDivE2(N, b, Neg(N, a)) = PDiv(N, 2, b, Neg(N, a))
            /\ AlgoAddE2(N, Neg(N, a), b) = PAdd(N, 2, Neg(N, a), b)
            /\ AlgoAddSameE2(N, Neg(N, a), Neg(N, b)) = PAdd(N, 2, Neg(N, a), Neg(N, b))
 LatOk == j = -1 \/ mode # "lat" \/ LatB
